@@ -81,7 +81,7 @@ def run(tier, seed, replay=None):
     # correspondence of the Lean model of the whole grouping front end with the real ImplGroups::parse
     # (accepted plans, overlapping ones that must be rejected, trait arguments, inherent mode)
     corr = plans[: (60 if tier == "quick" else 1500)] + [g.overlap()[0] for _ in range(15 if tier == "quick" else 400)] + \
-        [g.trait_args_plan() for _ in range(8 if tier == "quick" else 200)] + [g.inherent() for _ in range(8 if tier == "quick" else 200)]
+        [g.trait_args_plan() for _ in range(8 if tier == "quick" else 200)] + [g.inherent() for _ in range(8 if tier == "quick" else 200)] + [g.unsized_plan() for _ in range(15 if tier == "quick" else 300)]
     groupcorr.compare(rep, exe, [(p.invocation_text(), [p.block_text(bi) for bi in p.order()]) for p in corr])
     dumps = shape.validate(rep, exe, plans, PROP, judge=False)
     # 1. memberOK / ThetaCovers / KeysOverHeader / ExpandOK were evaluated by shape.validate (judge=False: collect below)
